@@ -723,6 +723,77 @@ def in1(ctx, R):
         raise AnchorMissing("reads of the previous segment's ordered_objects / object_index reached from read_segment_objects (found %d)" % n)
 
 
+@rule("IN2", "a flag that allows taking over the previous segment's path->position index is cleared by everything that appends to the object list", floor=0)
+def in2(ctx, R):
+    """Sharing `previous_segment.object_index` is right only if the object list was carried over and nothing was appended.  Where that is
+    decided by a local flag ("no new objects"), every statement of the parser that appends to the list - directly, or through a method of
+    the segment that appends - must set the flag in the same block; a branch that appends and forgets it leaves the new object without a
+    position (it is then read as absent, or another object's data is read for it)."""
+    from .sym import Sym, contains
+    prog = ctx.prog
+    fi = prog.func("tdms_segment.TdmsSegment.read_segment_objects")
+    seg = fi.cls
+    takeovers = [n for n in walk_body(fi.node) if isinstance(n, ast.Assign) and any(dotted(t) == "self.object_index" for t in n.targets)
+                 and isinstance(n.value, ast.Attribute) and n.value.attr == "object_index" and dotted(n.value.value) not in (None, "self")]
+    if not takeovers:
+        R.ok("tdms_segment.TdmsSegment.read_segment_objects::no index taken over", fi.where(), "the path->position index is never taken over from another segment")
+        return
+    # methods of the segment that append to the list
+    appenders = {m.name for m in seg.methods.values() if any(
+        isinstance(c, ast.Call) and isinstance(c.func, ast.Attribute) and c.func.attr in ("append", "extend", "insert") and (dotted(c.func.value) or "").endswith("ordered_objects")
+        for c in walk_body(m.node))}
+    list_names = {"self.ordered_objects"} | {t.id for n in walk_body(fi.node) if isinstance(n, ast.Assign) and dotted(n.value) == "self.ordered_objects"
+                                               for t in n.targets if isinstance(t, ast.Name)}
+
+    def appends(st):
+        for c in ast.walk(st):
+            if isinstance(c, ast.Call) and isinstance(c.func, ast.Attribute):
+                if c.func.attr in ("append", "extend", "insert") and dotted(c.func.value) in list_names:
+                    return True
+                if dotted(c.func.value) == "self" and c.func.attr in appenders:
+                    return True
+        return False
+    sy = Sym(prog, fi, seg, inline=False)
+    for tk in takeovers:
+        _env, guards = sy.env_at(tk)
+        # local flags in the guards: names assigned only boolean constants in this function
+        flags = {}
+        for n in walk_body(fi.node):
+            if isinstance(n, ast.Assign) and len(n.targets) == 1 and isinstance(n.targets[0], ast.Name):
+                nm = n.targets[0].id
+                isb = isinstance(n.value, ast.Constant) and isinstance(n.value.value, bool)
+                flags.setdefault(nm, []).append(n if isb else None)
+        flags = {k: v for k, v in flags.items() if all(x is not None for x in v)}
+        used = [k for k in flags if any(contains(g, lambda y, k=k: y == ("name", k) or y == ("local", k) or y == ("param", k)) for g in guards)] or \
+               [k for k in flags if any(isinstance(x, ast.Name) and x.id == k for st in walk_body(fi.node) if isinstance(st, ast.If) and any(y is tk for y in ast.walk(st)) for x in ast.walk(st.test))]
+        if not used:
+            R.unrecognised("tdms_segment.TdmsSegment.read_segment_objects::index taken over", fi.where(tk), "the condition under which the previous segment's index is taken over is not a local flag: not decided here (see IN1)")
+            continue
+        for F in used:
+            # the value the flag must have for the take-over: the one it is initialised with
+            init_val = flags[F][0].value.value
+            sets = [n for n in flags[F] if n.value.value != init_val]
+            # every block (statement list) that holds an appending statement must also set the flag
+            bad = []
+            def visit(stmts):
+                has_set = any(n in sets for n in stmts)
+                for st in stmts:
+                    simple = not isinstance(st, (ast.If, ast.For, ast.While, ast.Try, ast.With))
+                    if simple and appends(st) and not has_set:
+                        bad.append(st)
+                    for fld in ("body", "orelse", "finalbody"):
+                        sub = getattr(st, fld, None)
+                        if isinstance(sub, list) and sub and isinstance(sub[0], ast.stmt):
+                            visit(sub)
+                    for h in getattr(st, "handlers", []) or []:
+                        visit(h.body)
+            visit(fi.node.body)
+            key = "tdms_segment.TdmsSegment.read_segment_objects::flag %s" % F
+            R.check(not bad, key, fi.where(bad[0]) if bad else fi.where(tk), "every statement that appends to the object list sets `%s`" % F,
+                    "`%s` appends to the segment's object list without setting `%s`, the flag under which the previous segment's path->position index is taken over: "
+                    "the appended object has no position in that index" % (unparse(bad[0])[:70] if bad else "", F))
+
+
 @rule("PV1", "the map from a path to its most recent segment object is refreshed for every object of every segment", floor=1)
 def pv1(ctx, R):
     """`raw data index same as previous` and `no data` headers after a new object list are resolved through a map path -> most
